@@ -13,7 +13,7 @@ ENGINES = [
     {"name": "E-SEQ", "path": "/verif/harness", "kind_free_text": "explicit-state breadth-first search over operation sequences on fresh real objects (replay prefix + 1 op), canonical state keys, reference model stepped alongside"},
     {"name": "E-SCHED", "path": "/verif/engine/vsched", "kind_free_text": "controlled cooperative scheduler over real goroutines in a testing/synctest bubble (fake clock) + preemption-bounded DFS over schedules; sync primitives rewritten by go/ast instrumentation of the current tree"},
     {"name": "E-CRASH", "path": "/verif/engine/vfs", "kind_free_text": "crash-image enumeration: directory image taken at every file-system mutation point of a history run on the real code, each image recovered by the real start-up path"},
-    {"name": "E-CLUSTER", "path": "/verif/harness/system_test", "kind_free_text": "exhaustive operation/fault histories on live in-process clusters with schedule-independent oracles"},
+    {"name": "E-CLUSTER", "path": "/verif/harness/store", "kind_free_text": "exhaustive operation/fault histories on live in-process nodes (fresh real Store per history) with schedule-independent oracles"},
 ]
 
 NOT_APPLICABLE = {}
